@@ -24,7 +24,7 @@ def emit(scn):
 
 
 def main():
-    chk = Check("C03", "model_checking")
+    chk = Check("C03" if contagion.ENTRY == "Gillespie_simple_contagion" else "X03", "model_checking")
     common.import_eon()
     scn = contagion.make_scenarios(chk.tier, chk.seed)
     res = emit(scn)
@@ -81,7 +81,7 @@ def main():
             chk.cov["distinct_nontrivial"] += 1
         chk.part("replay", scenarios=1, leaves=r["leaves"], events=r["events"], trie_nodes=r["nodes"], array_mode_reruns=r["arr"])
         for p in r["problems"]:
-            chk.violation("Gillespie_simple_contagion|%s|%s" % (p["kind"], p.get("cls", "")),
+            chk.violation("%s|%s|%s" % (contagion.ENTRY, p["kind"], p.get("cls", "")),
                           p["detail"] + (" after history %r" % (p["history"],) if "history" in p else ""),
                           {"scenario": scn[t["sc"]], "task": t, "problem": p})
     if len(done) < len(tasks):
